@@ -19,7 +19,7 @@
     parameter ([naming]) so that the same definition speaks about values
     labelled with schema names (the identity naming) and about values dumped
     from Go structs (Go field names). *)
-From Coq Require Import List NArith Arith Lia Bool String.
+From Coq Require Import String List NArith Arith Lia Bool.
 From Tongo Require Import Lib.Bits.
 Import ListNotations.
 Local Open Scope N_scope.
